@@ -194,7 +194,7 @@ Definition detect_varlen_offset (b : list N) : res (option N) :=
 Definition new_with_window_size (w : N) : res BroCatli :=
   let mk a b l := Val (mkBC a b l false false 0 w None) in
   if 24 <? w then mk 17 (N.lor (N.lor w 64) 128) 2
-  else if w =? 16 then mk 7 0 1
+  else if w =? 16 then mk 6 0 1
   else if 17 <? w then mk (N.lor (3 + (w - 18) * 2) 48) 0 1
   else if w =? 15 then mk 241 1 2
   else if w =? 14 then mk 225 1 2
@@ -598,12 +598,12 @@ Definition append_eof_metablock_to_last_bytes (s : BroCatli) : res BroCatli :=
         match add_u8 (last_byte_bit_offset s1) 2 with
         | Panic => Panic
         | Val bo =>
-          if 8 <=? bo then
+          if 8 <? bo then
             match add_u8 (last_bytes_len s1) 1 with
             | Panic => Panic
-            | Val l => Val (set_len (set_bit_offset s1 (bo - 8)) l)
+            | Val l => Val (set_len (set_bit_offset s1 (bo mod 8)) l)
             end
-          else Val (set_bit_offset s1 bo)
+          else Val (set_bit_offset s1 (bo mod 8))
         end
       end
     end
